@@ -17,7 +17,7 @@ import time
 
 V = os.path.dirname(os.path.dirname(os.path.abspath(__file__)))
 REPO = "/repo"
-SEED_OUT = "/tmp/seed-out"
+SEED_OUT = os.environ.get("SEED_OUT", "/tmp/seed-out")
 
 
 def sh(cmd, cwd=None, timeout=3600, env=None):
